@@ -379,6 +379,8 @@ class TokenAwarePolicy(LoadBalancingPolicy):
             else:
                 replicas = self._cluster_metadata.get_replicas(keyspace, routing_key)
                 if self.shuffle_replicas:
+                    # shuffle a copy: the list belongs to the token map's cache
+                    replicas = list(replicas)
                     shuffle(replicas)
                 yielded = []
                 for replica in replicas:
